@@ -162,6 +162,14 @@ def run(ctx):
             pars = {p: repr(rng.choice([0.5, 1.5, 2.0])) for p in keep}
         tasks.append({"fn": "sysimpl.run_verdict", "indict": U.render(s, style=rng.choice([0, 1, 2]), rng=random.Random(k), parameters=pars), "api_timeout": 12, "timeout": 40})
     gcases = [gen_graph_case(rng, rng.randint(1, 12)) for _ in range(600 if quick else 6000)]
+    # small scope, exhaustively: every judgement vector x every edge set (self-loops included) on up to 2 (quick) / 3 (thorough) nodes
+    exhaustive = []
+    for n_ in range(1, 3 if quick else 4):
+        pairs_ = [(a, b) for a in range(n_) for b in range(n_)]
+        for mbits in range(2 ** n_):
+            for ebits in range(2 ** len(pairs_)):
+                exhaustive.append({"m": [bool(mbits >> i & 1) for i in range(n_)], "E": [pr for j, pr in enumerate(pairs_) if ebits >> j & 1]})
+    gcases += exhaustive
     gchunks = [gcases[i::8] for i in range(8)]
     gtasks = [{"fn": "sysimpl.run_propagate", "cases": ch} for ch in gchunks]
     allres = C.run_tasks(tasks + gtasks, timeout=40)
@@ -239,7 +247,7 @@ def run(ctx):
     return {"evaluations": len(coq_v) + len(coq_p), "distinct_nontrivial": len(nontriv) + len(set(C.stable_hash(x) for x in gcases)),
             "rule": "random systems (chains/fans/cycles/self-loops by random coupling; linear, offset, nonlinear, time-dependent, higher-order nodes; 3 spellings) and every entry permutation of small ones: verdict compared per variable; random dependency graphs up to 12 nodes (chain/cycle/fan/dense/random) for the worklist; non-trivial = more than one state variable / distinct graph",
             "samples": samples, "distribution": dist,
-            "layers": {"L1 verdict (in Coq)": len(coq_v), "L2 worklist on random graphs (in Coq)": len(coq_p), "probe: cover/sound/closed on API results": dist["verdict_source"]["api"], "probe: brute-force gfp on graphs": len(coq_p)},
+            "layers": {"L1 verdict (in Coq)": len(coq_v), "L2 worklist on random graphs + all graphs on <= %d nodes (in Coq)" % (2 if quick else 3): len(coq_p), "probe: cover/sound/closed on API results": dist["verdict_source"]["api"], "probe: brute-force gfp on graphs": len(coq_p)},
             "corr_mismatches": corr_mismatches, "corr_errors": corr_errors, "probe_failures": probe_failures}
 
 
